@@ -410,78 +410,120 @@ Proof.
   destruct (lastval (accepted s) (r_chan r)); congruence.
 Qed.
 
-Lemma iterate6_fields s : slots (iterate6 s) = slots s /\ reg (iterate6 s) = reg s /\
-  exists add, outs (iterate6 s) = add ++ outs s /\ new_drops add = [].
+Lemma tp_fields s s' : tp s s' -> slots s' = slots s /\ reg s' = reg s /\ exists add, outs s' = add ++ outs s /\ new_drops add = [].
+Proof. intros [G S R C (add & O & D & _)]. split; [auto|]. split; [auto|]. exists add. auto. Qed.
+(* a piece of transport (retry of the send buffer, OUT half of an iterate) that loses nothing keeps the invariant *)
+Lemma rep_tp sreg s s' : tp s s' -> (forall add, outs s' = add ++ outs s -> lost add = []) ->
+  SRc s -> reg s = true -> rep sreg s -> SRc s' /\ reg s' = true /\ rep sreg s'.
 Proof.
-  unfold iterate6. destruct (conn s); [|repeat split; auto; exists []; auto].
-  set (s1 := match queue s with k :: q => _ | [] => s end).
-  assert (A1 : slots s1 = slots s /\ reg s1 = reg s /\ outs s1 = outs s) by (unfold s1; destruct (queue s); repeat split; reflexivity).
-  destruct A1 as (A1 & A2 & A3).
-  destruct (drain SRPC_CHUNK (obuf s1)) as [sent rest].
-  assert (K : forall l s0, let s' := fold_left (fun acc k => emit (OWire (now s) k) acc) l s0 in
-              slots s' = slots s0 /\ reg s' = reg s0 /\ exists add, outs s' = add ++ outs s0 /\ new_drops add = []).
-  { induction l as [|k l IH]; intros s0; cbn [fold_left]; [repeat split; auto; exists []; auto|].
-    destruct (IH (emit (OWire (now s) k) s0)) as (B1 & B2 & add & B3 & B4). cbv zeta. rewrite B1, B2. repeat split; auto.
-    exists (add ++ [OWire (now s) k]). rewrite B3. cbn [outs emit set_outs]. rewrite <- app_assoc. split; [reflexivity|].
-    rewrite new_drops_app, B4. reflexivity. }
-  destruct (K sent (set_obuf rest s1)) as (B1 & B2 & add & B3 & B4). cbv zeta in *.
-  rewrite B1, B2. cbn [slots reg set_obuf]. repeat split; auto. exists add. rewrite B3. cbn [outs set_obuf]. rewrite A3. auto.
+  intros [G S R C (add & O & D & Cv)] NL SR Hr Rp.
+  split; [intros x Hx; rewrite S in Hx; auto|]. split; [congruence|].
+  intros r Hin. specialize (Rp r Hin).
+  assert (EA : accepted s' = accepted s) by (unfold accepted; rewrite O, wired_app', <- app_assoc, (Cv (NL add O)); reflexivity).
+  rewrite EA. rewrite (level_gout r s s' G). exact Rp.
 Qed.
-Lemma rep_iterate sreg s : SRc s -> reg s = true -> rep sreg s ->
-  SRc (iterate6 s) /\ reg (iterate6 s) = true /\ rep sreg (iterate6 s).
+Lemma RR_chcfg ch func ctype csize ms s : RRc s (channel_config e cc ch func ctype csize ms s).
 Proof.
-  intros SR Hr Rp. destruct (iterate6_fields s) as (A1 & A2 & _). destruct (fifo_thm s) as [F1 F2].
-  split; [intros x Hx; rewrite A1 in Hx; auto|]. split; [congruence|].
-  intros r Hin. specialize (Rp r Hin). rewrite F1. rewrite (level_gout r s (iterate6 s) F2). exact Rp.
+  destruct (chcfg_cases e cc ch func ctype csize ms s) as [->|(t & _ & ->)]; [apply RR_refl|].
+  eapply RR_trans; [|apply (RR_sdt cc Wc NDg NDc)]. apply RR_quiet; try reflexivity. exists []; split; reflexivity.
 Qed.
 
-Definition nodrop_step (s s' : st) : Prop := forall add, outs s' = add ++ outs s -> new_drops add = [].
-Lemma nodrop_split s s1 s2 : (exists a, outs s1 = a ++ outs s) -> (exists b, outs s2 = b ++ outs s1) -> nodrop_step s s2 ->
-  nodrop_step s s1 /\ nodrop_step s1 s2.
+(* nothing refused by the out-queue, nothing lost in the send buffer *)
+Definition clean (add : list out) : Prop := new_drops add = [] /\ lost add = [].
+Lemma clean_app a b : clean (a ++ b) <-> clean a /\ clean b.
+Proof.
+  unfold clean. rewrite new_drops_app, lost_app. split.
+  - intros [H1 H2]. apply app_eq_nil in H1. apply app_eq_nil in H2. tauto.
+  - intros [[A1 A2] [B1 B2]]. rewrite A1, A2, B1, B2. auto.
+Qed.
+Definition clean_step (s s' : st) : Prop := forall add, outs s' = add ++ outs s -> clean add.
+Lemma clean_split s s1 s2 : (exists a, outs s1 = a ++ outs s) -> (exists b, outs s2 = b ++ outs s1) -> clean_step s s2 ->
+  clean_step s s1 /\ clean_step s1 s2.
 Proof.
   intros (a & Ea) (b & Eb) H. specialize (H (b ++ a)). rewrite Eb, Ea, app_assoc in H. specialize (H eq_refl).
-  rewrite new_drops_app in H. apply app_eq_nil in H. destruct H as [Ha Hb].
+  apply clean_app in H. destruct H as [Hb Ha].
   split; intros x Ex; [rewrite Ea in Ex|rewrite Eb in Ex]; apply app_inv_tail in Ex; subst; auto.
 Qed.
 
-(* one event after registration *)
+(* one event after registration: transport, the handler (an RR step), transport *)
+Definition mid (s : st) (x : ev6) : st * st * st :=     (* (after the retry, after the handler, before the Q line) *)
+  match x with
+  | CIter => (dev_iterate s, dev_iterate s, iterate6 (dev_iterate s))
+  | CSetV ch v dur sender => let sa := dev_iterate s in let sm := channel_set_value e cc (u8 ch) v dur sender sa in (sa, sm, iterate6 sm)
+  | CGrp ch v dur => let sa := dev_iterate s in let sm := channel_set_value e cc (u8 ch) v dur 0 sa in (sa, sm, iterate6 sm)
+  | CBtn idx act => let sm := match nth_error (c6_inputs c) (Z.to_nat idx) with
+                              | Some i => if idx <? 0 then s else on_input e cc i (negb (act =? 0)) s | None => s end in (s, sm, sm)
+  | CTick dt => let sm := if dt <? 0 then s else cd_cb cc 0 (set_now (now s + dt) s) in (s, sm, sm)
+  | CTime2 ch ms => let sm := if (0 <=? ch) && (ch <? T2_COUNT) then set_time2 (setz (time2 s) ch ms) s else s in (s, sm, sm)
+  | COtherEv => (s, emit OUnknown s, emit OUnknown s)
+  | CChCfg ch func ctype csize ms => let sm := channel_config e cc ch func ctype csize ms s in (s, sm, sm)
+  | CSent rs => (s, set_sres rs s, set_sres rs s)
+  | CReg => (s, s, s)
+  end.
+Lemma mid_spec s x : x <> CReg ->
+  let '(sa, sm, s1) := mid s x in
+  tp s sa /\ RRc sa sm /\ tp sm s1 /\ step6 e c s x = emit (q_line s1) s1.
+Proof.
+  intros Nx. destruct x; try congruence; cbn [mid]; cbv zeta.
+  - split; [apply dev_iterate_tp|]. split; [apply RR_refl|]. split; [apply iterate6_tp|reflexivity].
+  - split; [apply dev_iterate_tp|]. split; [apply (RR_csv cc Wc NDg NDc)|]. split; [apply iterate6_tp|reflexivity].
+  - split; [apply dev_iterate_tp|]. split; [apply (RR_csv cc Wc NDg NDc)|]. split; [apply iterate6_tp|reflexivity].
+  - split; [apply tp_refl|]. split; [|split; [apply tp_refl|reflexivity]].
+    destruct (nth_error _ _) as [i|] eqn:En; [|apply RR_refl]. destruct (idx <? 0); [apply RR_refl|].
+    apply RR_on_input. eapply nth_error_In; eauto.
+  - split; [apply tp_refl|]. split; [|split; [apply tp_refl|reflexivity]].
+    destruct (dt <? 0); [apply RR_refl|]. eapply RR_trans; [|apply (RR_cd_cb cc Wc NDg NDc)].
+    apply RR_quiet; try reflexivity. exists []; split; reflexivity.
+  - split; [apply tp_refl|]. split; [|split; [apply tp_refl|reflexivity]].
+    destruct (_ && _); [|apply RR_refl]. apply RR_quiet; try reflexivity. exists []; split; reflexivity.
+  - split; [apply tp_refl|]. split; [|split; [apply tp_refl|reflexivity]]. apply RR_emit. intros; discriminate.
+  - split; [apply tp_refl|]. split; [apply RR_chcfg|split; [apply tp_refl|reflexivity]].
+  - split; [apply tp_refl|]. split; [|split; [apply tp_refl|reflexivity]]. apply RR_quiet; try reflexivity. exists []; split; reflexivity.
+Qed.
+(* the trace of an event only grows (needs no invariant) *)
+Lemma RR_frame_outs s x : x <> CReg -> let '(sa, sm, s1) := mid s x in exists a, outs sm = a ++ outs sa.
+Proof.
+  intros Nx. destruct x; try congruence; cbn [mid]; cbv zeta.
+  - exists []; reflexivity.
+  - destruct (csv_frame e cc (u8 ch) v dur sender (dev_iterate s)) as [_ _ _ Ho]. exact Ho.
+  - destruct (csv_frame e cc (u8 ch) v dur 0 (dev_iterate s)) as [_ _ _ Ho]. exact Ho.
+  - destruct (nth_error _ _) as [i|]; [|exists []; reflexivity]. destruct (idx <? 0); [exists []; reflexivity|].
+    unfold on_input. destruct (_ && negb (i_relay i =? 255)).
+    + pose proof (rsw_frame e cc (i_relay i) (if i_type i =? IN_MOTION then if negb (act =? 0) then 1 else 0 else 255) s) as [_ _ _ Ho]. exact Ho.
+    + destruct (_ && _); [|exists []; reflexivity].
+      pose proof (passive_value_changed (i_chan i) (if negb (act =? 0) then 1 else 0) s) as P. destruct (pa_outs _ _ P) as (a & Ea & _). exists a; auto.
+  - destruct (dt <? 0); [exists []; reflexivity|].
+    pose proof (cd_cb_frame cc 0 (set_now (now s + dt) s)) as [_ _ _ (a & Ea)]. exists a. rewrite Ea. reflexivity.
+  - destruct (_ && _); exists []; reflexivity.
+  - eexists [_]; reflexivity.
+  - destruct (chcfg_frame e cc ch func ctype csize ms s) as [_ _ _ Ho]. exact Ho.
+  - exists []; reflexivity.
+Qed.
+Lemma step6_outs' s x : x <> CReg -> exists add, outs (step6 e c s x) = add ++ outs s.
+Proof.
+  intros Nx. pose proof (mid_spec s x Nx) as M. pose proof (RR_frame_outs s x Nx) as F. destruct (mid s x) as [[sa sm] s1].
+  destruct M as (T1 & _ & T2 & ->). destruct F as (b & Eb).
+  destruct (tp_outs _ _ T1) as (a & Ea & _). destruct (tp_outs _ _ T2) as (d & Ed & _).
+  exists (q_line s1 :: d ++ b ++ a). cbn [outs emit set_outs]. rewrite Ed, Eb, Ea. cbn [app]. f_equal. rewrite <- !app_assoc. reflexivity.
+Qed.
+
 Lemma step6_rep sreg s x :
-  x <> CReg -> SRc s -> reg s = true -> rep sreg s -> nodrop_step s (step6 e c s x) ->
+  x <> CReg -> SRc s -> reg s = true -> rep sreg s -> clean_step s (step6 e c s x) ->
   SRc (step6 e c s x) /\ reg (step6 e c s x) = true /\ rep sreg (step6 e c s x).
 Proof.
-  intros Nx SR Hr Rp ND. unfold step6 in *.
-  set (s1 := match x with CReg => _ | _ => _ end) in *.
-  (* s1 is reached by an RR step followed, for the frames from the server, by one iterate *)
-  assert (K : exists sm, RRc s sm /\ (s1 = sm \/ s1 = iterate6 sm)).
-  { destruct x; try congruence; unfold s1.
-    - exists s. split; [apply RR_refl|auto].
-    - eexists. split; [apply (RR_csv cc Wc NDg NDc)|auto].
-    - eexists. split; [apply (RR_csv cc Wc NDg NDc)|auto].
-    - exists (match nth_error (c6_inputs c) (Z.to_nat idx) with Some i => if idx <? 0 then s else on_input e cc i (negb (act =? 0)) s | None => s end).
-      split; [|auto]. destruct (nth_error _ _) as [i|] eqn:En; [|apply RR_refl]. destruct (idx <? 0); [apply RR_refl|].
-      apply RR_on_input. eapply nth_error_In; eauto.
-    - exists (if dt <? 0 then s else cd_cb cc 0 (set_now (now s + dt) s)). split; [|auto].
-      destruct (dt <? 0); [apply RR_refl|]. eapply RR_trans; [|apply (RR_cd_cb cc Wc NDg NDc)].
-      apply RR_quiet; try reflexivity. exists []; split; reflexivity.
-    - exists (if (0 <=? ch) && (ch <? T2_COUNT) then set_time2 (setz (time2 s) ch ms) s else s). split; [|auto].
-      destruct (_ && _); [|apply RR_refl]. apply RR_quiet; try reflexivity. exists []; split; reflexivity.
-    - exists (emit OUnknown s). split; [|auto]. apply RR_emit. intros; discriminate. }
-  destruct K as (sm & Hm & Es1).
-  destruct (Hm SR) as (_ & _ & _ & _ & qa & addm & _ & Om & _ & _).
-  assert (E1 : exists a, outs s1 = a ++ outs sm).
-  { destruct Es1 as [->| ->]; [exists []; reflexivity|]. destruct (iterate6_fields sm) as (_ & _ & a & Ea & _). exists a; auto. }
-  assert (E01 : exists a, outs s1 = a ++ outs s) by (destruct E1 as (a & Ea); exists (a ++ addm); rewrite Ea, Om, app_assoc; reflexivity).
-  assert (E1' : exists b, outs (emit (q_line s1) s1) = b ++ outs s1) by (eexists [_]; reflexivity).
-  destruct (nodrop_split s s1 _ E01 E1' ND) as [ND1 _].
-  destruct (nodrop_split s sm s1 (ex_intro _ addm Om) E1 ND1) as [NDm _].
-  destruct (rep_RR sreg s sm Hm SR Hr NDm Rp) as (SRm & Rm & Rpm).
-  assert (G1 : SRc s1 /\ reg s1 = true /\ rep sreg s1).
-  { destruct Es1 as [->| ->]; [auto|]. apply rep_iterate; auto. }
-  destruct G1 as (SR1 & R1 & Rp1).
-  assert (Hq : RRc s1 (emit (q_line s1) s1)) by (apply RR_emit; intros; discriminate).
-  apply (rep_RR sreg s1 _ Hq SR1 R1); auto.
-  intros add Ea. cbn [outs emit set_outs] in Ea. change (q_line s1 :: outs s1) with ([q_line s1] ++ outs s1) in Ea.
-  apply app_inv_tail in Ea. subst add. reflexivity.
+  intros Nx SR Hr Rp ND.
+  pose proof (mid_spec s x Nx) as M. pose proof (RR_frame_outs s x Nx) as F. destruct (mid s x) as [[sa sm] s1].
+  destruct M as (T1 & Hm & T2 & Es). destruct F as (b & Eb). rewrite Es in *.
+  destruct (tp_outs _ _ T1) as (a & Ea & _). destruct (tp_outs _ _ T2) as (d & Ed & _).
+  assert (Cl : clean ([q_line s1] ++ d ++ b ++ a)).
+  { apply ND. cbn [outs emit set_outs app]. rewrite Ed, Eb, Ea. f_equal. rewrite <- !app_assoc. reflexivity. }
+  apply clean_app in Cl. destruct Cl as [_ Cl]. apply clean_app in Cl. destruct Cl as [Cd Cl]. apply clean_app in Cl. destruct Cl as [Cb Ca].
+  destruct (rep_tp sreg s sa T1) as (SRa & Ra & Rpa); auto.
+  { intros x0 E0. rewrite Ea in E0. apply app_inv_tail in E0. subst. apply Ca. }
+  destruct (rep_RR sreg sa sm Hm SRa Ra) as (SRm & Rm & Rpm); auto.
+  { intros x0 E0. rewrite Eb in E0. apply app_inv_tail in E0. subst. apply Cb. }
+  destruct (rep_tp sreg sm s1 T2) as (SR1 & R1 & Rp1); auto.
+  { intros x0 E0. rewrite Ed in E0. apply app_inv_tail in E0. subst. apply Cd. }
 Qed.
 
 (* the state at registration: every running slot names a board relay, nothing was ever on the wire *)
@@ -519,93 +561,49 @@ Qed.
 Definition sreg6 : st := step6 e c (start6 e c) CReg.
 Definition run_reg (evs : list ev6) : st := fold_left (step6 e c) evs sreg6.
 
-Lemma step6_outs s x : SRc s -> x <> CReg -> exists add, outs (step6 e c s x) = add ++ outs s.
-Proof.
-  intros SR Nx. unfold step6. set (s1 := match x with CReg => _ | _ => _ end).
-  assert (K : exists a, outs s1 = a ++ outs s).
-  { assert (RRo : forall sm, RRc s sm -> exists a, outs sm = a ++ outs s)
-      by (intros sm H; destruct (H SR) as (_ & _ & _ & _ & qa & a & _ & O & _); exists a; auto).
-    assert (ITo : forall sm, (exists a, outs sm = a ++ outs s) -> exists a, outs (iterate6 sm) = a ++ outs s).
-    { intros sm (a & Ea). destruct (iterate6_fields sm) as (_ & _ & b & Eb & _). exists (b ++ a). rewrite Eb, Ea, app_assoc. reflexivity. }
-    destruct x; try congruence; unfold s1.
-    - apply ITo. exists []; reflexivity.
-    - apply ITo, RRo, (RR_csv cc Wc NDg NDc).
-    - apply ITo, RRo, (RR_csv cc Wc NDg NDc).
-    - destruct (nth_error _ _) as [i|] eqn:En; [|exists []; reflexivity]. destruct (idx <? 0); [exists []; reflexivity|].
-      apply RRo, RR_on_input. eapply nth_error_In; eauto.
-    - destruct (dt <? 0); [exists []; reflexivity|]. apply RRo. eapply RR_trans; [|apply (RR_cd_cb cc Wc NDg NDc)].
-      apply RR_quiet; try reflexivity. exists []; split; reflexivity.
-    - destruct (_ && _); exists []; reflexivity.
-    - eexists [_]; reflexivity. }
-  destruct K as (a & Ea). exists (q_line s1 :: a). cbn [outs emit set_outs]. rewrite Ea. reflexivity.
-Qed.
-
 Lemma reg_fields s0 : let sr := step6 e c s0 CReg in
-  slots sr = slots s0 /\ reg sr = true /\ (exists q, outs sr = OSt (now s0) q 0 [] :: outs s0) /\ queue sr = [] /\ obuf sr = [].
-Proof. cbv zeta. unfold step6. repeat split; try reflexivity. eexists. reflexivity. Qed.
+  slots sr = slots s0 /\ reg sr = true /\ (exists q l, outs sr = OSt (now s0) q 0 l :: outs s0) /\ queue sr = [] /\ obuf sr = [].
+Proof. cbv zeta. unfold step6. repeat split; try reflexivity. do 2 eexists. reflexivity. Qed.
 
 Theorem last_report_thm : forall evs,
   (forall x, In x evs -> x <> CReg) ->
   let s := run_reg evs in
-  new_drops (outs s) = [] ->
+  new_drops (outs s) = [] -> lost (outs s) = [] ->
   SRc s /\ reg s = true /\ rep sreg6 s.
 Proof.
-  induction evs as [|x evs IH] using rev_ind; intros Nx s ND.
+  induction evs as [|x evs IH] using rev_ind; intros Nx s ND NL.
   - unfold s, run_reg. cbn [fold_left]. destruct BI_start as [SR0 W0].
     pose proof (reg_fields (start6 e c)) as E. cbv zeta in E. fold sreg6 in E.
     destruct E as (E1 & E2 & E3 & E4 & E5).
     split; [intros y Hy; rewrite E1 in Hy; auto|]. split; [auto|].
-    intros r Hr. destruct E3 as (q & E3). unfold accepted. rewrite E3, E4, E5. cbn [wired]. rewrite W0. cbn. reflexivity.
+    intros r Hr. destruct E3 as (q & l & E3). unfold accepted. rewrite E3, E4, E5. cbn [wired]. rewrite W0. cbn. reflexivity.
   - unfold s, run_reg in *. rewrite fold_left_app in *. cbn [fold_left] in *.
     set (sp := fold_left (step6 e c) evs sreg6) in *.
     assert (Nx' : forall y, In y evs -> y <> CReg) by (intros y Hy; apply Nx, in_or_app; auto).
     assert (Nxx : x <> CReg) by (apply Nx, in_or_app; right; left; reflexivity).
-    (* the prefix has no refused call either *)
-    assert (SRp_pre : new_drops (outs sp) = [] -> SRc sp /\ reg sp = true /\ rep sreg6 sp) by (intros H; apply IH; auto).
-    (* the trace only grows: first get SlotRel of the prefix from a weaker route *)
-    assert (G : new_drops (outs sp) = [] /\ nodrop_step sp (step6 e c sp x)).
-    { (* outs (step) = add ++ outs sp needs SlotRel sp, which needs no drops in sp: go through the trace of the step itself *)
-      assert (Any : exists add, outs (step6 e c sp x) = add ++ outs sp).
-      { unfold step6. set (s1 := match x with CReg => _ | _ => _ end).
-        assert (K : exists a, outs s1 = a ++ outs sp).
-        { destruct x; try congruence; unfold s1.
-          - destruct (iterate6_fields sp) as (_ & _ & b & Eb & _). exists b; auto.
-          - pose proof (csv_frame e cc (u8 ch) v dur sender sp) as [_ _ _ (a & Ea)].
-            destruct (iterate6_fields (channel_set_value e cc (u8 ch) v dur sender sp)) as (_ & _ & b & Eb & _).
-            exists (b ++ a). rewrite Eb, Ea, app_assoc. reflexivity.
-          - pose proof (csv_frame e cc (u8 ch) v dur 0 sp) as [_ _ _ (a & Ea)].
-            destruct (iterate6_fields (channel_set_value e cc (u8 ch) v dur 0 sp)) as (_ & _ & b & Eb & _).
-            exists (b ++ a). rewrite Eb, Ea, app_assoc. reflexivity.
-          - destruct (nth_error _ _) as [i|]; [|exists []; reflexivity]. destruct (idx <? 0); [exists []; reflexivity|].
-            unfold on_input. destruct (_ && negb (i_relay i =? 255)).
-            + pose proof (rsw_frame e cc (i_relay i) (if i_type i =? IN_MOTION then if negb (act =? 0) then 1 else 0 else 255) sp) as [_ _ _ Ho]. exact Ho.
-            + destruct (_ && _); [|exists []; reflexivity].
-              pose proof (passive_value_changed (i_chan i) (if negb (act =? 0) then 1 else 0) sp) as P. destruct (pa_outs _ _ P) as (a & Ea & _). exists a; auto.
-          - destruct (dt <? 0); [exists []; reflexivity|].
-            pose proof (cd_cb_frame cc 0 (set_now (now sp + dt) sp)) as [_ _ _ (a & Ea)]. exists a. rewrite Ea. reflexivity.
-          - destruct (_ && _); exists []; reflexivity.
-          - eexists [_]; reflexivity. }
-        destruct K as (a & Ea). exists (q_line s1 :: a). cbn [outs emit set_outs]. rewrite Ea. reflexivity. }
-      destruct Any as (add & Ea). rewrite Ea, new_drops_app in ND. apply app_eq_nil in ND. destruct ND as [ND1 ND2].
-      split; auto. intros a' Ea'. rewrite Ea in Ea'. apply app_inv_tail in Ea'. subst. auto. }
-    destruct G as [NDp NDs]. destruct (SRp_pre NDp) as (SRp & Rp & Rpp).
+    destruct (step6_outs' sp x Nxx) as (add & Ea).
+    rewrite Ea, new_drops_app in ND. apply app_eq_nil in ND. destruct ND as [ND1 ND2].
+    rewrite Ea, lost_app in NL. apply app_eq_nil in NL. destruct NL as [NL1 NL2].
+    destruct (IH Nx' ND1 NL1) as (SRp & Rp & Rpp).
     apply step6_rep; auto.
+    intros a' Ea'. rewrite Ea in Ea'. apply app_inv_tail in Ea'. subst. split; auto.
 Qed.
 
-(* C06_last_report_equals_state: from registration on, for every history without a refused call, whenever the device is
-   idle the last VALUE_CHANGED on the wire for each relay channel is the logical level of its pin (and a relay whose
-   channel was never reported still has the level it had at registration) *)
+(* C06_last_report_equals_state: from registration on, for every history without a refused call and without a frame lost
+   in the send buffer, whenever the device is idle the last VALUE_CHANGED on the wire for each relay channel is the
+   logical level of its pin (and a relay whose channel was never reported still has the level it had at registration).
+   The TCP layer may refuse writes (CSent): refused bytes wait in devconn's send buffer and are frames of `obuf` here. *)
 Theorem last_report_idle_thm : forall evs,
   (forall x, In x evs -> x <> CReg) ->
   let s := run_reg evs in
-  new_drops (outs s) = [] -> queue s = [] -> obuf s = [] ->
+  new_drops (outs s) = [] -> lost (outs s) = [] -> queue s = [] -> obuf s = [] ->
   forall r, In r (c_relays cc) ->
     match lastval (wired (outs s)) (r_chan r) with
     | Some v => v = b2z (level r s)
     | None => level r s = level r sreg6
     end.
 Proof.
-  intros evs Nx s ND Q B r Hr. destruct (last_report_thm evs Nx ND) as (_ & _ & Rp).
+  intros evs Nx s ND NL Q B r Hr. destruct (last_report_thm evs Nx ND NL) as (_ & _ & Rp).
   fold s in Rp. rewrite (idle_thm s Q B). exact (Rp r Hr).
 Qed.
 End Histories.
@@ -619,9 +617,11 @@ Proof.
   - cbn. repeat constructor; cbn; intuition discriminate.
   - cbn. intros i r [].
 Qed.
-Definition plain_evs : list ev6 := [CSetV 1 1 3000 77; CIter; CIter; CSetV 1 0 0 78; CIter; CIter].
+(* ... the link is busy (INPROGRESS) for the second request and the following iterate, then accepts the staged bytes *)
+Definition plain_evs : list ev6 := [CSetV 1 1 3000 77; CIter; CIter; CSent [SENT_INPROGRESS; SENT_INPROGRESS]; CSetV 1 0 0 78; CIter; CIter; CIter].
 Lemma plain_history_ok :
   (forall x, In x plain_evs -> x <> CReg) /\ new_drops (outs (run_reg false cd_board plain_evs)) = [] /\
+  lost (outs (run_reg false cd_board plain_evs)) = [] /\
   queue (run_reg false cd_board plain_evs) = [] /\ obuf (run_reg false cd_board plain_evs) = [] /\
   lastval (wired (outs (run_reg false cd_board plain_evs))) 1 = Some 0.
 Proof.
